@@ -659,9 +659,10 @@ def valid_request(G, mx, tx):
     return f"{nT} {nN} {ni[G['start']]} {start} R {rules} S {'|'.join(states)} A {arows} G {grows}"
 
 
-def validate_automata(rep, cases):
+def validate_automata(rep, cases, tight=False):
     """cases: [(label, text, G, impl stages line)] for accepted grammars.  Runs the proved-sound validator
-    (Proofs/Valid.validB) on the implementation's own machine and table.  Returns number validated."""
+    (Proofs/Valid.validB) on the implementation's own machine and table.  Returns number validated.
+    With tight=True also Proofs/Tight.tightB (CoreSound + NonEmpty, the extra hypotheses of the C03 theorem)."""
     reqs, keep = [], []
     for label, text, G, line in cases:
         ip = corr.split_stages(line)
@@ -669,17 +670,25 @@ def validate_automata(rep, cases):
             continue
         try:
             reqs.append(valid_request(G, kv.parse_sexp(ip["machine"]), kv.parse_sexp(ip["table"])))
-            keep.append((label, text))
+            keep.append((label, text, G))
         except Exception as e:
             rep.violation("machine/table of the implementation cannot be read for validation: " + repr(e), {"source": text}, no_input=True)
     outs = kv.run_model("valid", reqs)
+    touts = kv.run_model("tight", reqs) if tight else ["(tight true productive true)"] * len(reqs)
     bad = 0
-    for (label, text), o in zip(keep, outs):
+    for (label, text, G), o, to in zip(keep, outs, touts):
         if o != "(valid true)":
             bad += 1
             why = kv.unhexs(kv.parse_sexp(o)[2]) if o.startswith("(valid false") else o
             rep.violation("the automaton/table built for an accepted grammar violates the local LR validity conditions (Sound/Complete), "
                           "so the emitted parser is not shown to accept exactly L(G): " + why, {"label": label, "source": text}, no_input=True)
+        elif tight and to.split()[3].rstrip(")") != "true" and oracle.productive(G) >= set(G["nonterminals"]):
+            bad += 1
+            rep.violation("productiveB (Lean) and the reference productivity computation disagree on a grammar: " + to, {"label": label, "source": text}, no_input=True)
+        elif not to.startswith("(tight true "):
+            bad += 1
+            rep.violation("the automaton built for an accepted grammar has an item outside the closure of its state's kernel or an empty target state "
+                          "(tightB), so the consumed input is not shown to be a viable prefix: " + to, {"label": label, "source": text}, no_input=True)
     return len(keep) - bad
 
 
@@ -909,6 +918,8 @@ def run_C02(rep, tier, rng):
 
 def run_C03(rep, tier, rng):
     recs = _driver_common(rep, tier)
+    lines = kv.run_impl("stages", corr.stage_requests([r["text"] for r in recs]))
+    validated = validate_automata(rep, [(r["label"], r["text"], r["G"], l) for r, l in zip(recs, lines) if l.startswith("(stages")], tight=True)
     ev, dis, unprod = 0, [], 0
     for r in recs:
         G = r["G"]
@@ -951,7 +962,8 @@ def run_C03(rep, tier, rng):
     return {"evaluations": ev, "distinct_nontrivial": sum(1 for r in recs for si, s in enumerate(r["strings"]) if len(s) >= 2 and (r["impl"][si] or "").startswith("err")),
             "rule": "rejected inputs of the C01 run, fed through a counting iterator; error index compared with the least non-extendable prefix (prefix-Earley oracle) when every nonterminal is productive, else with a canonical LR(1) reference driver; pulls compared with index+1; non-trivial = at least 2 tokens",
             "samples": sample([{"source": r["text"], "tokens": s, "impl": r["impl"][si]} for r in recs[20:] for si, s in enumerate(r["strings"]) if (r["impl"][si] or "").startswith("errsome") and len(s) >= 3]),
-            "checked_against_canonical_lr1": unprod, "model_disagreements": len(dis)}
+            "checked_against_canonical_lr1": unprod, "automata_validated_by_validB_and_tightB": validated, "grammars_compiled": len(recs),
+            "model_disagreements": len(dis)}
 
 
 # =========================================================================================== reader of emitted text (C06 / C12 / C13)
@@ -1684,7 +1696,7 @@ def run_C16(rep, tier, rng):
 
 register("C01", run_C01, ["C01.C01_no_panic_and_sound", "C01.C01_complete", "C01.C01_accepts_iff", "C01.C01_sentences_terminate"])
 register("C02", run_C02, ["C02.C02_tree", "C02.C02_that_tree", "C02.C02_unique", "C02.C02_faithful"])
-register("C03", run_C03, ["C03.C03_viable"])
+register("C03", run_C03, ["C03.C03_viable", "C03.C03_not_early", "C03.C03_lookahead_only", "C03.C03_first_offending", "C03.C03_front_end", "C03.C03_front_end_first_offending"])
 register("C04", run_C04, ["C04.C04_setAction_ok_iff", "C04.C04_setAction_fresh", "C04.C04_ok_conflict_free", "C04.C04_conflict_genuine"])
 register("C05", run_C05, ["C05.C05_fresh"])
 register("C06", run_C06, ["C06.C06_items_and_signature"])
